@@ -3,7 +3,11 @@
       range, also when the same name occurred below processed sections before (the
       per-name visit counter advances for every named node, processed or not);
     - MeasurePCR0DATA: the reference to the IBB digest of an algorithm addresses exactly the
-      hash buffer of the first list entry with that algorithm, whatever the list looks like. *)
+      hash buffer of the first list entry with that algorithm, whatever the list looks like;
+    - a NodeVisitor object that is used for several Runs behaves in each of them like a fresh
+      one (whatever its maps hold from before);
+    - the PhysMemMapper entry points never change an array of their caller, and every answer
+      of a session is a function of that call's own arguments. *)
 From Coq Require Import ZArith List Bool Lia.
 From CSS Require Import Lib.Base Model.AddrMap Proofs.AddrMap.
 Import ListNotations.
